@@ -66,6 +66,32 @@ func upDate(r *rand.Rand) string {
 	return fmt.Sprintf("%04d-%02d-%02d", y, m+1, 1+r.Intn(days[m]))
 }
 
+// upEvidence draws an optional evidence attribute: an xs:list of integers, i.e. items separated by any
+// amount of white space (blank, tab, line break, also as character references), possibly at the ends.
+func upEvidence(r *rand.Rand) string {
+	if r.Intn(3) != 0 {
+		return ""
+	}
+	seps := []string{" ", " ", "  ", "\t", "&#9;", "&#10;", " \n "}
+	var sb strings.Builder
+	sb.WriteString(" evidence=\"")
+	if r.Intn(6) == 0 {
+		sb.WriteString(" ")
+	}
+	n := r.Intn(4)
+	for i := 0; i < n; i++ {
+		if i > 0 {
+			sb.WriteString(seps[r.Intn(len(seps))])
+		}
+		fmt.Fprint(&sb, 1+r.Intn(40))
+	}
+	if r.Intn(6) == 0 {
+		sb.WriteString(" ")
+	}
+	sb.WriteString("\"")
+	return sb.String()
+}
+
 func randUniprotDoc(r *rand.Rand, n int, small bool) ([]upEntry, string) {
 	var sb strings.Builder
 	sb.WriteString("<?xml version=\"1.0\" encoding=\"UTF-8\"?>\n<uniprot xmlns=\"http://uniprot.org/uniprot\"")
@@ -125,12 +151,12 @@ func randUniprotDoc(r *rand.Rand, n int, small bool) ([]upEntry, string) {
 			sb.WriteString("  <name>" + spell(nm) + endTag("name") + "\n")
 		}
 		if !small || r.Intn(2) == 0 {
-			sb.WriteString("  <protein>\n    <recommendedName>\n      <fullName>Protein " + gen.RandWordAlnum(r, 6) + " &amp; co</fullName>\n    </recommendedName>\n  </protein>\n")
+			sb.WriteString("  <protein>\n    <recommendedName>\n      <fullName" + upEvidence(r) + ">Protein " + gen.RandWordAlnum(r, 6) + " &amp; co</fullName>\n    </recommendedName>\n  </protein>\n")
 		}
 		if !small {
-			sb.WriteString("  <organism>\n    <name type=\"scientific\">" + gen.RandWordAlnum(r, 8) + " virus</name>\n    <dbReference type=\"NCBI Taxonomy\" id=\"" + fmt.Sprint(1000+r.Intn(9000)) + "\"/>\n  </organism>\n")
+			sb.WriteString("  <organism>\n    <name type=\"scientific\">" + gen.RandWordAlnum(r, 8) + " virus</name>\n    <dbReference type=\"NCBI Taxonomy\" id=\"" + fmt.Sprint(1000+r.Intn(9000)) + "\"" + upEvidence(r) + "/>\n  </organism>\n")
 			if r.Intn(2) == 0 {
-				sb.WriteString("  <comment type=\"similarity\">\n    <text>Belongs to the <![CDATA[<MGF>]]> family.</text>\n  </comment>\n  <keyword id=\"KW-0244\">Early protein</keyword>\n")
+				sb.WriteString("  <comment type=\"similarity\"" + upEvidence(r) + ">\n    <text>Belongs to the <![CDATA[<MGF>]]> family.</text>\n  </comment>\n  <keyword id=\"KW-0244\"" + upEvidence(r) + ">Early protein</keyword>\n")
 			}
 			sb.WriteString("  <proteinExistence type=\"inferred from homology\"/>\n")
 		}
@@ -575,7 +601,21 @@ func runC20(w *mon.W) {
 		}
 		// gzip through uniprot.Read with the documented consumer
 		path := filepath.Join(tmp, "d.xml.gz")
-		os.WriteFile(path, gzipBytes([]byte(doc)), 0644)
+		gzb := gzipBytes([]byte(doc))
+		if k%3 == 2 && len(doc) > 2 {
+			// a gzip file may consist of several members (RFC 1952 2.2; what `cat a.gz b.gz` and block
+			// compressors write): the document is the concatenation of their contents
+			gzb = nil
+			cut := 0
+			for m := 1 + r.Intn(3); m > 0 && cut < len(doc)-1; m-- {
+				next := cut + 1 + r.Intn(len(doc)-cut-1)
+				gzb = append(gzb, gzipBytes([]byte(doc[cut:next]))...)
+				cut = next
+			}
+			gzb = append(gzb, gzipBytes([]byte(doc[cut:]))...)
+			w.Add("multi_member_gzip_files", 1)
+		}
+		os.WriteFile(path, gzb, 0644)
 		entries, errs, err := uniprot.Read(path)
 		if err != nil {
 			w.Violation(id, fmt.Sprintf("uniprot.Read: %v", err), nil)
